@@ -675,6 +675,11 @@ def method_call(self, st, base, attr, args, node):
                 self.write_field(s, base, cls, "map", Val(nm.t, mp.ty), line)
                 yield s, Val(z3.IntVal(0), "none")
                 return
+            if attr == "get" and len(args) == 1 and mp.ty[2] == "int":
+                present = z3.Contains(ks.t, z3.Unit(args[0].t))
+                vty = ("ref", self.c.get("dict_values", {}).get(cls, "opaque"))
+                yield st, Val(z3.If(present, z3.Select(mp.t, args[0].t), z3.IntVal(0)), vty)
+                return
             if attr == "get" and len(args) == 2:
                 present = z3.Contains(ks.t, z3.Unit(args[0].t))
                 d = self.coerce(args[1], mp.ty[2] if mp.ty[2] != "int" else "int")
